@@ -30,10 +30,17 @@ Header(b, o) ==
 DataLen(h, tl) == (tl + 1) * h.timecnt + 6 * h.typecnt + h.charcnt + (tl + 4) * h.leapcnt
                   + h.isstdcnt + h.isutcnt
 
-RECURSIVE CStr(_, _)         \* bytes from 1-based position i up to (not including) the next NUL
-CStr(s, i) == IF i > Len(s) \/ s[i] = 0 THEN <<>> ELSE <<s[i]>> \o CStr(s, i + 1)
-RECURSIVE FindNL(_, _)
-FindNL(b, i) == IF i > Len(b) THEN 0 ELSE IF b[i] = 10 THEN i ELSE FindNL(b, i + 1)
+\* position of the first element equal to v in s[lo..hi] (which must contain one): binary splitting,
+\* so that long inputs need neither deep recursion nor quadratic concatenation
+Has(s, v, lo, hi) == \E j \in lo..hi : s[j] = v
+RECURSIVE First(_, _, _, _)
+First(s, v, lo, hi) == IF lo = hi THEN lo
+                       ELSE LET mid == (lo + hi) \div 2 IN
+                            IF Has(s, v, lo, mid) THEN First(s, v, lo, mid) ELSE First(s, v, mid + 1, hi)
+\* bytes from 1-based position i up to (not including) the next NUL
+CStr(s, i) == IF i > Len(s) THEN <<>>
+              ELSE IF Has(s, 0, i, Len(s)) THEN SubSeq(s, i, First(s, 0, i, Len(s)) - 1) ELSE SubSeq(s, i, Len(s))
+FindNL(b, i) == IF i <= Len(b) /\ Has(b, 10, i, Len(b)) THEN First(b, 10, i, Len(b)) ELSE 0
 
 Bad(why) == [ok |-> FALSE, why |-> why]
 \* The data block that is decoded: the only one in a version-1 file, the second (8-byte) one otherwise.
